@@ -133,7 +133,7 @@ def main(tier, seed):
         blocks.append("\n".join(b))
     violations = []
     configs = [("g++", "c++14"), ("clang++-14", ["c++14", "c++17", "c++20"][seed % 3])]
-    nchunks = 16
+    nchunks = max(16, -(-len(blocks) // 10))      # bounded translation units: ~10 lists per TU in every tier
     results = {}
     stats = {"lists": len(lists), "units": len(units), "configs": [], "with_origin": sum(1 for u in units if u["origin"]),
              "is_input_lists": 0, "compile_failures": 0}
